@@ -284,10 +284,38 @@ def k_via_align(run, case):
                   "refused alignment leaves the estimate untouched", case, "estimate changed by a refused alignment",
                   key="umeyama@align:refusal-not-clean")
         return
+    projected = None
+    if rng.random() < .25:
+        # both trajectories were projected into a plane before (2-D evaluation); the estimate is
+        # the reference seen upside down (a half turn about an in-plane axis) in half of the cases:
+        # the best fit is then no rotation about the plane normal
+        from evo.core.trajectory import Plane
+        projected = ["xy", "xz", "yz"][rng.integers(3)]
+        nd = {"xy": 2, "xz": 1, "yz": 0}[projected]
+        pr = ref["p"].copy()
+        pr[:, nd] = 0.0
+        axis = np.zeros(3)
+        axis[(nd + 1) % 3] = 1.0
+        F = rm.rodrigues(axis, PI) if rng.random() < .5 else np.eye(3)
+        spin = rm.rodrigues(np.eye(3)[nd], rng.uniform(-PI, PI))
+        shift = rng.normal(size=3) * (float(np.std(pr)) + 1e-3)
+        shift[nd] = 0.0
+        pe = (s * (spin @ F @ pr.T)).T + shift + rng.normal(size=pr.shape) * 1e-3 * (float(np.std(pr)) + 1e-3) * (np.arange(3) != nd)
+        est2 = {"p": pe, "R": np.array([spin @ F @ Rk for Rk in ref["R"]]), "t": ref["t"]}
+        t_ref = gen.make_evo(ref, mode, stamped=False)
+        t_est = gen.make_evo(est2, mode, stamped=False)
+        t_ref.project(Plane(projected)), t_est.project(Plane(projected))
+    x3 = np.array(t_est.positions_xyz, dtype=float).T.copy()
+    y3 = np.array(t_ref.positions_xyz, dtype=float).T.copy()
     with contracts.wrapped(geometry, "umeyama_alignment", mk):
-        contracts.outcome_of(t_est.align, t_ref, cs, only, nn)
-    run.seen(case, core.digest(ref["p"], est["p"], cs, only, nn), cls=["via PosePath3D.align"],
-             sample={"n": n, "correct_scale": cs, "only_scale": only, "n_to_align": nn})
+        out_align = contracts.outcome_of(t_est.align, t_ref, cs, only, nn)
+    run.seen(case, core.digest(ref["p"], est["p"], cs, only, nn, projected), cls=["via PosePath3D.align"] +
+             (["via PosePath3D.align: both trajectories projected before"] if projected else []),
+             sample={"n": n, "correct_scale": cs, "only_scale": only, "n_to_align": nn, "projected": projected})
+    # what align() returns is the least-squares similarity of the first n positions of the two objects
+    m_used = n if nn == -1 else nn
+    contracts.umeyama_oracle(run, case, x3[:, :m_used], y3[:, :m_used], cs or only, out_align, pfx="align-returns",
+                             cloud_rng=run.rng(case, 11))
     run.check(len(seen) == 1, "align calls umeyama once", case,
               "PosePath3D.align reached umeyama_alignment %d times" % len(seen))
     for xs, ys, ws, out in seen:
